@@ -65,6 +65,13 @@ theorem writeFile_normal_ok {fs : FS β} {l : List Name} {s : Name} (b : β)
   rw [locate_normal_ok h]
   simp [hd]
 
+theorem mkdir_normal_ok {fs : FS β} {l : List Name} {s : Name}
+    (h : ∀ m, m <+: l → m ≠ [] → isDir fs m = true) (hn : node fs (l ++ [s]) = none) :
+    mkdir fs ((l ++ [s]).map Comp.normal) = .ok (set fs (l ++ [s]) .dir) := by
+  unfold mkdir
+  rw [locate_normal_ok h]
+  simp [hn]
+
 theorem isDirAt_normal_ok {fs : FS β} {l : List Name} {s : Name}
     (h : ∀ m, m <+: l → m ≠ [] → isDir fs m = true) (hd : isDir fs (l ++ [s]) = true) :
     isDirAt fs ((l ++ [s]).map Comp.normal) = true := by
